@@ -179,6 +179,7 @@ def oracle_opnorm(case):
     if case.get("converged_check") and prev is not None and smax > 0:
         if abs(prev[1] - smax) > 1e-6 * smax:
             return {"why": "estimate did not converge to the separated largest singular value", "estimate": prev[1], "exact": smax, "budget": prev[0]}
+    if ests and smax > 0 and np.all(np.isfinite(M)):
         bad = _rate_violation(M, G.start_vector(A, key), ests)
         if bad is not None:
             return bad
@@ -186,27 +187,32 @@ def oracle_opnorm(case):
 
 
 def _rate_violation(M, v0, ests):
-    """the proved rate (C17_opnorm_converges): with lam = squared singular values, r = lam_2/lam_1 < 1, c = <v_1, v0>,
-    C = (|v0|^2 - c^2)/c^2 :   lam_1 (1 - r^(2(k-1)) C) <= estimate(k)^2   for every budget k >= 1  (real operators)"""
-    if np.iscomplexobj(M) or np.iscomplexobj(v0):
-        return None
-    n = M.shape[1]
-    _, S, Vt = np.linalg.svd(np.asarray(M, dtype=np.float64))
+    """the proved rate (C17_opnorm_converges), on the real view of the operator: lam = squared singular values, D = the indices of
+    the largest one (multiplicity allowed: a complex operator has every value twice), r = (largest other)/lam_1 < 1,
+    head = |P_D v0|^2, C = (|v0|^2 - head)/head :   lam_1 (1 - r^(2(k-1)) C) <= estimate(k)^2   for every budget k >= 1"""
+    Mr = G.realview_mat(M)
+    v0 = G.realview_vec(v0)
+    n = Mr.shape[1]
+    _, S, Vt = np.linalg.svd(Mr)
     lam = np.zeros(n)
     lam[: len(S)] = S ** 2
-    if n > 1 and not lam[1] < lam[0] * (1 - 1e-9):
+    if lam[0] <= 0:
         return None
-    r = float(lam[1] / lam[0]) if n > 1 else 0.0
-    v0 = np.asarray(v0, dtype=np.float64).ravel()
-    c = float(Vt[0] @ v0)
-    if abs(c) <= 1e-6 * np.linalg.norm(v0):
+    top = lam >= lam[0] * (1 - 1e-9)
+    rest = lam[~top]
+    if rest.size and not rest.max() < lam[0] * (1 - 1e-6):
+        return None  # no clear gap: the theorem's hypothesis is not met robustly
+    r = float(rest.max() / lam[0]) if rest.size else 0.0
+    head = float(sum((Vt[i] @ v0) ** 2 for i in range(n) if top[i]))
+    if head <= 1e-12 * float(v0 @ v0):
         return None
-    C = float(v0 @ v0 - c * c) / (c * c)
+    C = max(float(v0 @ v0) - head, 0.0) / head
     for k, est in ests:
         bound = lam[0] * (1.0 - r ** (2 * (k - 1)) * C)
         if est * est < bound - 1e-9 * lam[0]:
             return {"why": "estimate is below the proved geometric lower bound lam_1(1 - r^(2(k-1)) C) (convergence under a spectral gap)",
-                    "maxiter": k, "estimate^2": est * est, "lower_bound": bound, "lam_1": float(lam[0]), "r": r, "C": C}
+                    "maxiter": k, "estimate^2": est * est, "lower_bound": float(bound), "lam_1": float(lam[0]), "r": r, "C": C,
+                    "multiplicity": int(top.sum())}
     return None
 
 
